@@ -77,7 +77,7 @@ func shutdownDomain(lines []string) []string {
 		case err := <-pending:
 			pending = nil
 			out = append(out, "shutdown-> "+show(err))
-		case <-time.After(60 * time.Millisecond):
+		case <-time.After(150 * time.Millisecond):
 		}
 	}
 	for _, line := range lines {
@@ -112,7 +112,7 @@ func shutdownDomain(lines []string) []string {
 			select {
 			case err := <-ch:
 				out = append(out, "shutdown "+show(err))
-			case <-time.After(60 * time.Millisecond):
+			case <-time.After(150 * time.Millisecond):
 				pending = ch
 				out = append(out, "shutdown blocked")
 			}
